@@ -18,7 +18,8 @@ package main
 //
 // before the `/`: every text evaluated as a whole (its forms together); after it: a second
 // interpreter that is given the same forms one at a time. I = the four stack depths of the
-// fresh interpreter; T/S = outcome class (ok | err | cerr | panic), depths after the
+// fresh interpreter; T/S = outcome class (ok | err | cerr | panic | timeout = call budget
+// exceeded, the rest of the history is then `skipped`), depths after the
 // evaluation and the canonical print of the value; E = the same for EvalString("") issued
 // right after; G = the largest depths seen after any successful evaluation; C = breaches of the calling
 // contract observed by pre/post hooks (`-` when none): <name>+<k> a call returned with k
@@ -33,6 +34,7 @@ import (
 	"regexp"
 	"sort"
 	"strings"
+	"sync"
 	"time"
 
 	"github.com/glycerine/zygomys/v9/zygo"
@@ -112,10 +114,30 @@ func restMkEnv(std bool) *zygo.Zlisp {
 	if std {
 		env.StandardSetup()
 	}
+	// the programs of the `eval` generator call the host function `trace` (identity)
+	env.AddFunction("trace", func(env *zygo.Zlisp, name string, args []zygo.Sexp) (zygo.Sexp, error) {
+		if len(args) == 0 {
+			return zygo.SexpNull, nil
+		}
+		return args[0], nil
+	})
 	return env
 }
 
 var restGensym = regexp.MustCompile(`__([A-Za-z_]*?)_?[0-9]+`)
+var restPointer = regexp.MustCompile(`0x[0-9a-f]{6,}`)
+
+// The interpreter prints to os.Stdout (printf, _ls, "alert: …"): the answer lines of the
+// harness travel on the descriptor main() opened before, so os.Stdout can be pointed away.
+var restQuiet sync.Once
+
+func restSilence() {
+	restQuiet.Do(func() {
+		if f, err := os.OpenFile(os.DevNull, os.O_WRONLY, 0); err == nil {
+			os.Stdout = f
+		}
+	})
+}
 
 // canonical print of a value: the interpreter's own printer, gensym counters removed
 // (two interpreters that served different histories number their symbols differently).
@@ -130,6 +152,7 @@ func restCanon(env *zygo.Zlisp, v zygo.Sexp) (s string) {
 	}
 	s = v.SexpString(nil)
 	s = restGensym.ReplaceAllString(s, "__${1}N")
+	s = restPointer.ReplaceAllString(s, "0xP")
 	if len(s) > 300 {
 		s = s[:300] + "…"
 	}
@@ -137,14 +160,27 @@ func restCanon(env *zygo.Zlisp, v zygo.Sexp) (s string) {
 }
 
 type restMon struct {
-	pend   []restPend
-	breach map[string]bool
+	pend     []restPend
+	breach   map[string]bool
+	calls    int
+	timedOut bool
 }
+
+type restTimeout struct{}
+
+const restCallBudget = 30000
+
 type restPend struct{ addr, data, scope, nargs int }
 
 func (m *restMon) install(env *zygo.Zlisp) {
 	m.breach = map[string]bool{}
 	env.AddPreHook(func(env *zygo.Zlisp, name string, args []zygo.Sexp) {
+		m.calls++
+		if m.calls > restCallBudget {
+			// a recover() of CallUserFunction further up may swallow this panic: the flag counts
+			m.timedOut = true
+			panic(restTimeout{})
+		}
 		d, s, a, _ := env.VerifDepths()
 		m.pend = append(m.pend, restPend{addr: a, data: d, scope: s, nargs: len(args)})
 	})
@@ -193,7 +229,9 @@ func (m *restMon) String() string {
 
 type restRun struct {
 	env  *zygo.Zlisp
+	mon  *restMon
 	dead bool
+	gone bool // after a timeout: the rest of the history is skipped, nothing is demanded of it
 	max  [4]int
 	out  []string
 }
@@ -212,13 +250,14 @@ func (r *restRun) depths(success bool) string {
 
 // eval runs one EvalString; tag is T, S or E.
 func (r *restRun) eval(tag, text string, record bool) {
-	if r.dead {
+	if r.dead || r.gone {
 		if record {
-			r.out = append(r.out, tag+":dead:-:-")
+			r.out = append(r.out, tag+":"+map[bool]string{true: "dead", false: "skipped"}[r.dead]+":-:-")
 		}
 		return
 	}
 	cls, val := "ok", "-"
+	r.mon.calls = 0
 	func() {
 		defer func() {
 			if rec := recover(); rec != nil {
@@ -236,6 +275,13 @@ func (r *restRun) eval(tag, text string, record bool) {
 		}
 		val = restCanon(r.env, res)
 	}()
+	if r.mon.timedOut {
+		r.gone = true
+		if record {
+			r.out = append(r.out, tag+":timeout:-:-")
+		}
+		return
+	}
 	if cls == "panic" {
 		r.dead = true
 		if record {
@@ -250,9 +296,9 @@ func (r *restRun) eval(tag, text string, record bool) {
 }
 
 func restServe(std bool, rep int, texts [][]string, together bool) string {
-	r := &restRun{env: restMkEnv(std)}
-	defer r.env.Close()
 	mon := &restMon{}
+	r := &restRun{env: restMkEnv(std), mon: mon}
+	defer r.env.Close()
 	mon.install(r.env)
 	r.out = append(r.out, "I:"+r.depths(true))
 	for k := 0; k < rep; k++ {
@@ -297,12 +343,13 @@ func restExec(toks []string) string {
 	if len(toks) < 1 {
 		return "bad-op"
 	}
+	restSilence()
 	std, rep, ok := restMode(toks[0])
 	if !ok {
 		return "bad-op"
 	}
 	texts := restTexts(toks[1:])
-	return withWatchdog(20*time.Second, func() string {
+	return withWatchdog(4*time.Second, func() string {
 		a := restServe(std, rep, texts, true)
 		b := restServe(std, rep, texts, false)
 		return a + " / " + b
@@ -322,6 +369,7 @@ func balExec(toks []string) string {
 	if len(toks) < 1 {
 		return "bad-op"
 	}
+	restSilence()
 	if toks[0] == "script" {
 		if len(toks) != 2 {
 			return "bad-op"
@@ -334,13 +382,20 @@ func balExec(toks []string) string {
 		return "bad-op"
 	}
 	texts := restTexts(toks[1:])
-	return withWatchdog(20*time.Second, func() string {
+	return withWatchdog(4*time.Second, func() string {
 		env := restMkEnv(std)
 		defer env.Close()
 		l := env.VerifNewLister()
 		if !base {
 			l.Baseline()
 		}
+		calls := 0
+		env.AddPreHook(func(env *zygo.Zlisp, name string, args []zygo.Sexp) {
+			calls++
+			if calls > restCallBudget {
+				panic(restTimeout{})
+			}
+		})
 		type slice struct {
 			name string
 			code []zygo.Instruction
@@ -357,6 +412,7 @@ func balExec(toks []string) string {
 						dead = true
 					}
 				}()
+				calls = 0
 				atEnd := env.VerifAtEnd()
 				n0 := env.VerifMainLen()
 				if err := env.LoadString(strings.Join(forms, "\n") + "\n"); err != nil {
@@ -368,14 +424,19 @@ func balExec(toks []string) string {
 				}
 				tops = append(tops, slice{fmt.Sprintf("text%d", i), code})
 				env.Run()
+				if calls > restCallBudget {
+					dead = true // a recover() inside the VM swallowed the budget panic
+				}
 			}()
 		}
+		calls = 0
 		for _, t := range tops {
 			l.AddCode("top", t.name, 0, false, 0, t.code)
 		}
-		if !dead {
+		func() {
+			defer func() { recover() }()
 			l.AddReachable()
-		}
+		}()
 		if len(l.Out) == 0 {
 			return "none"
 		}
